@@ -22,7 +22,7 @@ open SeaQ.Derive SeaQ.Ident SeaQ.Escape
 theorem valid_no_quote (n : List Char) (h : mustBeValidIden n = true) (qc : Char)
     (hq : qc ≠ '_' ∧ isAlnum qc = false) : qc ∉ n := by
   intro hm
-  simp only [mustBeValidIden, Bool.and_eq_true, List.all_eq_true] at h
+  simp only [mustBeValidIden, SeaQ.Gen.ValidIden.mustBeValidIden, Bool.and_eq_true, List.all_eq_true] at h
   have := h.2 qc hm
   simp only [Bool.or_eq_true, beq_iff_eq] at this
   rcases this with e | e
